@@ -54,6 +54,23 @@ func (f *lcFault) String() string {
 	return s
 }
 
+// lcRetried: the error kinds ("r"/"w" + kind) after which the real client has been OBSERVED (dry runs, engine
+// start) to transmit the request again. Which errors the client retries is not part of the property (it bounds the
+// number of transmissions and demands recovery); the model has a retryable and a fatal class of read and of write
+// faults, and the observation decides to which class a kind belongs. nil: not observed, today's classification.
+var lcRetried map[string]bool
+
+// kinds whose class is observed (the others — end of stream, closed connection — are retryable by the property's
+// own mechanism list and are checked as such by the rty family).
+var lcObservedKinds = []string{"rreset", "rtimeout", "rueof", "wreset", "wshort", "whreset"}
+
+func lcIsRetried(dir byte, kind string) bool {
+	if kind == "late" {
+		kind = "hreset" // the same error, reported after the request was delivered
+	}
+	return lcRetried != nil && lcRetried[string(dir)+kind]
+}
+
 // letter of the fault in the model's scenario language.
 func (f *lcFault) letter() byte {
 	switch f.dir {
@@ -61,7 +78,10 @@ func (f *lcFault) letter() byte {
 		return 'd'
 	case 'r':
 		if f.kind == "reset" || f.kind == "timeout" || f.kind == "ueof" {
-			return 'r' // anything that is not an end of stream or a closed connection: not retried
+			if lcIsRetried('r', f.kind) {
+				return 'e'
+			}
+			return 'r' // anything that is not an end of stream or a closed connection: not retried (as observed)
 		}
 		return 'e' // io.EOF, closed pipe, partial message followed by EOF: all retryable for doRountrip
 	default:
@@ -70,6 +90,9 @@ func (f *lcFault) letter() byte {
 			return 'w'
 		case "car":
 			return 'e' // the client sees EOF on a later read
+		}
+		if lcIsRetried('w', f.kind) {
+			return 'w'
 		}
 		return 'f'
 	}
